@@ -47,6 +47,10 @@ impl Vm {
                     self.bp = 0;
                     self.ep = usize::MAX;
                     self.acc = VCell::undefined();
+                    // Nothing of the failed evaluation may be resumed: park %ip at the end of
+                    // the code it was running, where a further run() finds no instruction, as
+                    // it does after an evaluation that finished.
+                    self.ip.1 = self.lambda().bc.len();
                     // A failed evaluation is a collection point like a finished one: otherwise
                     // a run of failures never collects and the heap only grows.
                     self.run_gc();
